@@ -3,6 +3,7 @@
 
 mod common;
 mod props;
+mod regdump;
 
 use engine::{check_main, replay_main, worker_main, RunCfg};
 
@@ -56,6 +57,20 @@ fn main() {
             let tier = body["tier"].as_str().unwrap_or("quick").to_string();
             let mut space = props::build(&args[2], &tier, seed).expect("unknown property");
             std::process::exit(replay_main(&mut *space, &args[3]));
+        }
+        "dump" => {
+            let ctx = common::fresh_ctx();
+            let d = regdump::dump(&ctx);
+            println!("units {} base {} prefixes {} quantities {} substances {} symbols {}", d.units.len(), d.base_units.len(), d.prefixes.len(), d.quantities.len(), d.substances.len(), d.symbols.len());
+            let floats: Vec<_> = d.units.values().filter(|u| u.value.is_none()).map(|u| u.name.clone()).collect();
+            println!("float-valued: {:?}", floats);
+            let nonpos: Vec<_> = d.units.values().filter(|u| u.value.as_ref().map(|v| v <= &common::rat(0,1)).unwrap_or(false)).map(|u| u.name.clone()).collect();
+            println!("non-positive: {:?}", nonpos);
+            let reps = d.representatives();
+            println!("representatives {}: {:?}", reps.len(), reps.iter().map(|u| u.name.clone()).collect::<Vec<_>>());
+            let unaddr: Vec<_> = d.units.keys().filter(|n| !regdump::addressable(n)).cloned().collect();
+            println!("not addressable: {:?}", unaddr);
+            println!("base units: {:?}", d.base_units);
         }
         "list" => {
             let tier = args.get(3).cloned().unwrap_or_else(|| "quick".into());
